@@ -9,14 +9,25 @@ rsync -a --exclude target --exclude .git /repo/ "$S"/
 if ! patch -p1 -s -f -d "$S" -i "$P" >/dev/null 2>&1; then echo "PATCH DOES NOT APPLY: $P"; rm -rf "$S"; exit 3; fi
 [ -d /var/tmp/nuts-verif/target-ac ] || cp -a /var/tmp/nuts-verif/target-all /var/tmp/nuts-verif/target-ac 2>/dev/null
 cd /verif
+# one extraction first (fact cache), then the rule engines in parallel; evidence of this run goes to a scratch directory
+python3 -c "
+import sys, os
+sys.path.insert(0, '/verif')
+os.environ['NUTS_VERIF_TARGET_TAG'] = 'ac'
+from rules import extract as X
+try:
+    X.extract('$S', 'all')
+except X.BuildFailed as e:
+    print('does not build'); print(e.log[-1500:])
+" 2>&1 | grep -v "^WARNING conda"
 for id in $IDS; do
-  out=$(NUTS_VERIF_TARGET_TAG=ac ./check $id --tier quick --repo "$S" 2>&1)
-  rc=$?
-  if [ $rc -ne 0 ]; then
-    echo "--- $id rc=$rc"
-    echo "$out" | grep -E "rule=|does not build|Traceback|Error" | cut -c1-330 | head -8
-  fi
+  ( out=$(NUTS_VERIF_TARGET_TAG=ac ./check $id --tier quick --repo "$S" 2>&1); rc=$?
+    if [ $rc -ne 0 ]; then
+      echo "--- $id rc=$rc"
+      echo "$out" | grep -E "rule=|does not build|Traceback|Error" | cut -c1-330 | head -8
+    fi ) &
 done
+wait
 rm -rf "$S"
 git -C /verif checkout -- evidence 2>/dev/null
 echo "done $P"
